@@ -178,3 +178,8 @@ PROPS['C07'] = dict(
                'c = 64, times cond of the linear system a user operator solves in working precision; r = implicit restarts since init',
     assumptions=SOLVER_ASSUME,
 )
+
+# per-property snippets (one file per property, same PROPS[...] = dict(...) form as above)
+import glob as _glob, os as _os
+for _f in sorted(_glob.glob(_os.path.join(_os.path.dirname(_os.path.abspath(__file__)), 'props_d', '*.py'))):
+    exec(compile(open(_f).read(), _f, 'exec'))
